@@ -130,7 +130,10 @@ def hygiene_bodies():
     inner = ['exists x in ys: @x > 0', 'forall x in ys: @x > @x', 'exists x in [0 to 3]: xs[@x] > 0', 'exists y in ys: @y > 0', 'exists y in ys: @y > @x', 'exists y in ys: p']
     wraps = ['%s', 'b and %s', '%s or b', 'not %s', 'b implies %s', '@x > 0 and %s', '(%s) and @x > 0', 'not (b and not %s)', 'b and (q or %s)', '(exists z in zs: @z > 0) and %s',
              'exists y in [0 to int(%s)]: @y > 0', 'exists y in {int(%s), 1}: @y > @x', 'xs[int(%s)] > 0', 'xs[int(%s)] > @x', 'exists z in zs: (@z > 0 and %s)', 'exists z in zs: (@z > @x and %s)']
-    outer = ['forall x in xs: (%s)', 'exists x in {1, 2}: (%s)', 'w and forall x in xs: (%s)', '(forall x in xs: (%s)) or @x > 0']
+    outer = ['forall x in xs: (%s)', 'exists x in {1, 2}: (%s)', 'w and forall x in xs: (%s)', '(forall x in xs: (%s)) or @x > 0',
+             # error messages print the offending node: sub-terms of every printing branch (negative and computed range bounds,
+             # half-open brackets, sets with operators, calls, strings, constants)
+             'forall x in [-5 to 5]: (%s)', 'exists x in ![-(y) to len(xs) + 1]!: (%s)', 'forall x in {-1, abs(y), 2 ** 3, PI}: (%s)', 'sa = "s" and exists x in m.zs[-1].k: (%s)']
     bodies = []
     for o in outer:
         for w in wraps:
@@ -338,7 +341,7 @@ def replay(w):
 def describe(tier):
     b = bounds(tier)
     return {
-        'rule': f"(a) all token sequences of length <= {b['seq_len_full']} over a {len(ALPHABET)}-token alphabet and <= {b['seq_len_core']} over a core alphabet, 5 entry points; (b) all single{' and double' if b['double_edits'] else ''} token edits of a {sum(len(v) for v in c01.CORPUS.values())}-text corpus; (c) all strings of length <= {b['chars_len']} over {len(AWKWARD)} awkward characters and every single insertion of each at every position of the corpus; (d) 20 nesting shapes at depths 1..{b['depth']}; (e) every call history of length <= {b['history_len']} over a 18/19-text pool on one parser object per entry point (5 entry points), last outcome compared with a fresh parser. (h) 29 function names (the 27 built-in ones, an unknown one, a wrongly capitalised one) x 33 argument shapes x 7 entry-point shapes. (g) 24 predicates that refer to the event's own alias in every kind of slot x 6 event positions + files. (f) quantifier hygiene: 4 outer quantifiers x 16 wrappers (every connective, domains through int(...), indices, a second quantifier) x 6 inner quantifiers that re-bind / shadow / leak / never use a variable, through 7 entry-point shapes. A transition = one parser call; states (e) = distinct (last two calls, outcome) triples.",
+        'rule': f"(a) all token sequences of length <= {b['seq_len_full']} over a {len(ALPHABET)}-token alphabet and <= {b['seq_len_core']} over a core alphabet, 5 entry points; (b) all single{' and double' if b['double_edits'] else ''} token edits of a {sum(len(v) for v in c01.CORPUS.values())}-text corpus; (c) all strings of length <= {b['chars_len']} over {len(AWKWARD)} awkward characters and every single insertion of each at every position of the corpus; (d) 20 nesting shapes at depths 1..{b['depth']}; (e) every call history of length <= {b['history_len']} over a 18/19-text pool on one parser object per entry point (5 entry points), last outcome compared with a fresh parser. (h) 29 function names (the 27 built-in ones, an unknown one, a wrongly capitalised one) x 33 argument shapes x 7 entry-point shapes. (g) 24 predicates that refer to the event's own alias in every kind of slot x 6 event positions + files. (f) quantifier hygiene: 8 outer quantifiers (4 of them over domains that exercise every printing branch, since the messages quote the offending node) x 16 wrappers (every connective, domains through int(...), indices, a second quantifier) x 6 inner quantifiers that re-bind / shadow / leak / never use a variable, through 7 entry-point shapes. A transition = one parser call; states (e) = distinct (last two calls, outcome) triples.",
         'bounds': b,
         'exhaustive': True,
         'assumptions': ['documented failure classes: HplSyntaxError, HplSanityError, TypeError, ValueError for an unknown function name; watchdog of 10 s per call for termination'],
